@@ -78,6 +78,14 @@ def _check_no_nones_in_list(lst: List, name: str):
             raise RuntimeError(f"{name} contains None value")
 
 
+def _unique_objects(tasks):
+    res = []
+    for t in tasks:
+        if not any(t is r for r in res):
+            res.append(t)
+    return res
+
+
 def _unique_tasks(tasks):
     m = set()
     res = []
@@ -860,7 +868,7 @@ class Task:
         Setter for predecessor tasks
         :param value: new predecessors
         """
-        value = _to_list(value)
+        value = _unique_objects(_to_list(value))
         _check_no_nones_in_list(value, 'predecessors')
 
         parents = self.all_parents
@@ -911,7 +919,7 @@ class Task:
         Setter for direct successors
         :param value: new direct successors
         """
-        value = _to_list(value)
+        value = _unique_objects(_to_list(value))
         _check_no_nones_in_list(value, 'successors')
 
         parents = self.all_parents
